@@ -1,10 +1,17 @@
 // Penalty call-site translator for C18 (stdlib only). Walks every non-test, non-verif Go file under <repo>/pkg and <repo>/cmd
 // and lists every call of ApplyPenalty / BanPeer / banPeer / addPenalty: file, enclosing function (method name, "/func" appended
 // per enclosing function literal), callee as written, and the chain of guarding conditions from the outermost to the innermost
-// (if conditions with their init statement, "else(<cond>)" for else branches, "range <expr>" / "for <cond>" for loops,
+// (if conditions with their init statement, "else(<cond>)" for else branches, "not(<cond>)" after an if that always leaves, "range <expr>" / "for <cond>" for loops,
 // "case <expr>" for switch/select clauses). The list is emitted to coq/Gen/Penalties.v; Coq checks it equals the catalogue in
 // coq/P2P/PenaltySites.v, so a removed, added, moved or re-guarded penalty site breaks an obligation.
 // Also emitted: the functions that *declare* these names (so that a new wrapper is noticed).
+//
+// Robustness against harmless extraction of helpers: a site is identified by the ENTRY POINT that reaches it, not by the textual
+// enclosing function. An unexported function/method that is not itself one of the four names, is unique by name in its package
+// and has at least one caller in the package is a pass-through helper: its penalty calls are attributed to every call site of the
+// helper (function of the caller, guard chain of the caller followed by the guards inside the helper, parameters substituted by
+// the arguments), to a fixed depth; the helper is not listed by itself. Wrapping `banPeer` in `banRemotePeer(conn)` therefore keeps
+// the list equal, while removing, adding, moving or re-guarding a penalty - in a helper or not - still changes it.
 package main
 
 import (
@@ -17,6 +24,7 @@ import (
 	"go/token"
 	"os"
 	"path/filepath"
+	"regexp"
 	"sort"
 	"strings"
 )
@@ -43,7 +51,31 @@ type walker struct {
 	fn    string
 	guard []string
 	out   *[]site
+	pkg   *pkgInfo
+	depth int
+	subst []sub // parameter -> argument text, applied to every printed guard / callee
 }
+
+type sub struct {
+	re *regexp.Regexp
+	to string
+}
+
+// pkgInfo: the functions of one package directory by simple name (methods and functions alike), and which of them are helpers.
+type pkgInfo struct {
+	funcs   map[string][]*ast.FuncDecl
+	helpers map[string]*ast.FuncDecl
+}
+
+func (w walker) text(n ast.Node) string {
+	t := src(n)
+	for i := len(w.subst) - 1; i >= 0; i-- {
+		t = w.subst[i].re.ReplaceAllString(t, w.subst[i].to)
+	}
+	return t
+}
+
+const maxInline = 3
 
 func (w walker) with(g string) walker {
 	n := w
@@ -51,10 +83,40 @@ func (w walker) with(g string) walker {
 	return n
 }
 
+// stmts walks a statement list. An `if c { ...; return/continue/break/goto/panic }` without else guards everything that follows
+// it in the list: the statements after it run only when c is false ("not(c)" joins the guard chain).
 func (w walker) stmts(l []ast.Stmt) {
+	cur := w
 	for _, s := range l {
-		w.node(s)
+		cur.node(s)
+		if ifs, ok := s.(*ast.IfStmt); ok && ifs.Else == nil && terminates(ifs.Body) && src(ifs.Cond) != "err != nil" {
+			// (plain error propagation `if [x := f();] err != nil { return }` is not recorded: it guards everything everywhere)
+			g := cur.text(ifs.Cond)
+			if ifs.Init != nil {
+				g = cur.text(ifs.Init) + "; " + g
+			}
+			cur = cur.with("not(" + g + ")")
+		}
 	}
+}
+
+func terminates(b *ast.BlockStmt) bool {
+	if b == nil || len(b.List) == 0 {
+		return false
+	}
+	switch v := b.List[len(b.List)-1].(type) {
+	case *ast.ReturnStmt:
+		return true
+	case *ast.BranchStmt:
+		return v.Tok == token.CONTINUE || v.Tok == token.BREAK || v.Tok == token.GOTO
+	case *ast.ExprStmt:
+		if c, ok := v.X.(*ast.CallExpr); ok {
+			if id, ok := c.Fun.(*ast.Ident); ok && id.Name == "panic" {
+				return true
+			}
+		}
+	}
+	return false
 }
 
 // node walks statements keeping the guard chain; expressions are scanned for calls and function literals.
@@ -67,10 +129,10 @@ func (w walker) node(n ast.Node) {
 			w.stmts(v.List)
 		}
 	case *ast.IfStmt:
-		g := src(v.Cond)
+		g := w.text(v.Cond)
 		if v.Init != nil {
 			w.node(v.Init)
-			g = src(v.Init) + "; " + g
+			g = w.text(v.Init) + "; " + g
 		}
 		w.expr(v.Cond)
 		w.with(g).node(v.Body)
@@ -80,7 +142,7 @@ func (w walker) node(n ast.Node) {
 	case *ast.ForStmt:
 		g := "for"
 		if v.Cond != nil {
-			g = "for " + src(v.Cond)
+			g = "for " + w.text(v.Cond)
 		}
 		w.node(v.Init)
 		if v.Cond != nil {
@@ -90,13 +152,13 @@ func (w walker) node(n ast.Node) {
 		w.with(g).node(v.Body)
 	case *ast.RangeStmt:
 		w.expr(v.X)
-		w.with("range " + src(v.X)).node(v.Body)
+		w.with("range " + w.text(v.X)).node(v.Body)
 	case *ast.SwitchStmt:
 		w.node(v.Init)
 		tag := ""
 		if v.Tag != nil {
 			w.expr(v.Tag)
-			tag = src(v.Tag) + " "
+			tag = w.text(v.Tag) + " "
 		}
 		for _, c := range v.Body.List {
 			cc := c.(*ast.CaseClause)
@@ -104,7 +166,7 @@ func (w walker) node(n ast.Node) {
 			if cc.List != nil {
 				var xs []string
 				for _, e := range cc.List {
-					xs = append(xs, src(e))
+					xs = append(xs, w.text(e))
 				}
 				g = "case " + tag + strings.Join(xs, ", ")
 			}
@@ -119,7 +181,7 @@ func (w walker) node(n ast.Node) {
 			if cc.List != nil {
 				var xs []string
 				for _, e := range cc.List {
-					xs = append(xs, src(e))
+					xs = append(xs, w.text(e))
 				}
 				g = "case type " + strings.Join(xs, ", ")
 			}
@@ -130,7 +192,7 @@ func (w walker) node(n ast.Node) {
 			cc := c.(*ast.CommClause)
 			g := "default"
 			if cc.Comm != nil {
-				g = "case " + src(cc.Comm)
+				g = "case " + w.text(cc.Comm)
 				w.node(cc.Comm)
 			}
 			w.with(g).stmts(cc.Body)
@@ -200,11 +262,73 @@ func (w walker) expr(e ast.Expr) {
 				name = f.Name
 			}
 			if names[name] {
-				*w.out = append(*w.out, site{w.file, w.fn, src(v.Fun), strings.Join(w.guard, " | ")})
+				*w.out = append(*w.out, site{w.file, w.fn, w.text(v.Fun), strings.Join(w.guard, " | ")})
+			} else if h := w.pkg.helpers[name]; h != nil && w.depth < maxInline {
+				// pass-through helper: its penalty calls belong to this call site
+				nw := w
+				nw.depth = w.depth + 1
+				nw.subst = append(append([]sub{}, w.subst...), bindParams(h, v, w)...)
+				nw.node(h.Body)
 			}
 		}
 		return true
 	})
+}
+
+// bindParams maps the parameter names (and the receiver name) of helper h to the printed arguments of call c.
+func bindParams(h *ast.FuncDecl, c *ast.CallExpr, w walker) []sub {
+	var out []sub
+	add := func(name, to string) {
+		if name == "" || name == "_" || name == to {
+			return
+		}
+		out = append(out, sub{regexp.MustCompile(`\b` + regexp.QuoteMeta(name) + `\b`), strings.ReplaceAll(to, "$", "$$")})
+	}
+	if h.Recv != nil && len(h.Recv.List) == 1 && len(h.Recv.List[0].Names) == 1 {
+		if sel, ok := c.Fun.(*ast.SelectorExpr); ok {
+			add(h.Recv.List[0].Names[0].Name, w.text(sel.X))
+		}
+	}
+	i := 0
+	for _, f := range h.Type.Params.List {
+		for _, nm := range f.Names {
+			if i < len(c.Args) {
+				add(nm.Name, w.text(c.Args[i]))
+			}
+			i++
+		}
+	}
+	return out
+}
+
+// containsPenalty reports whether the body of f calls one of the four names directly or through helpers (fixed depth).
+func containsPenalty(f *ast.FuncDecl, pi *pkgInfo, depth int) bool {
+	found := false
+	if f.Body == nil {
+		return false
+	}
+	ast.Inspect(f.Body, func(n ast.Node) bool {
+		c, ok := n.(*ast.CallExpr)
+		if !ok {
+			return true
+		}
+		name := ""
+		switch fn := c.Fun.(type) {
+		case *ast.SelectorExpr:
+			name = fn.Sel.Name
+		case *ast.Ident:
+			name = fn.Name
+		}
+		if names[name] {
+			found = true
+		} else if depth < maxInline {
+			if fs := pi.funcs[name]; len(fs) == 1 && fs[0] != f && containsPenalty(fs[0], pi, depth+1) {
+				found = true
+			}
+		}
+		return true
+	})
+	return found
 }
 
 func q(s string) string { return "\"" + strings.ReplaceAll(s, "\"", "\"\"") + "\"" }
@@ -231,44 +355,90 @@ func main() {
 	}
 	var sites []site
 	var decls []string
+	// pass 1: parse, group by package directory, find the helpers
+	type parsed struct {
+		rel string
+		f   *ast.File
+	}
+	byDir := map[string][]parsed{}
+	var dirs []string
 	for _, p := range files {
 		f, err := parser.ParseFile(fset, p, nil, 0)
 		if err != nil {
 			fail("%v", err)
 		}
 		rel, _ := filepath.Rel(*repo, p)
-		for _, d := range f.Decls {
-			switch v := d.(type) {
-			case *ast.FuncDecl:
-				fn := v.Name.Name
-				if v.Recv != nil && len(v.Recv.List) == 1 {
-					fn = strings.TrimPrefix(src(v.Recv.List[0].Type), "*") + "." + fn
+		d := filepath.Dir(rel)
+		if _, ok := byDir[d]; !ok {
+			dirs = append(dirs, d)
+		}
+		byDir[d] = append(byDir[d], parsed{rel, f})
+	}
+	for _, d := range dirs {
+		pi := &pkgInfo{funcs: map[string][]*ast.FuncDecl{}, helpers: map[string]*ast.FuncDecl{}}
+		called := map[string]bool{}
+		for _, pf := range byDir[d] {
+			for _, decl := range pf.f.Decls {
+				if fd, ok := decl.(*ast.FuncDecl); ok {
+					pi.funcs[fd.Name.Name] = append(pi.funcs[fd.Name.Name], fd)
 				}
-				if names[v.Name.Name] {
-					decls = append(decls, rel+":"+fn)
-				}
-				if v.Body != nil {
-					walker{file: rel, fn: fn, out: &sites}.node(v.Body)
-				}
-			case *ast.GenDecl:
-				// package-level function values
-				for _, sp := range v.Specs {
-					if vs, ok := sp.(*ast.ValueSpec); ok {
-						for i, e := range vs.Values {
-							name := "_"
-							if i < len(vs.Names) {
-								name = vs.Names[i].Name
-							}
-							walker{file: rel, fn: "var " + name, out: &sites}.expr(e)
-						}
+			}
+			ast.Inspect(pf.f, func(n ast.Node) bool {
+				if c, ok := n.(*ast.CallExpr); ok {
+					switch fn := c.Fun.(type) {
+					case *ast.SelectorExpr:
+						called[fn.Sel.Name] = true
+					case *ast.Ident:
+						called[fn.Name] = true
 					}
-					// interface methods with these names are declarations of use, list them too
-					if ts, ok := sp.(*ast.TypeSpec); ok {
-						if it, ok := ts.Type.(*ast.InterfaceType); ok {
-							for _, m := range it.Methods.List {
-								for _, id := range m.Names {
-									if names[id.Name] {
-										decls = append(decls, rel+":interface "+ts.Name.Name+"."+id.Name)
+				}
+				return true
+			})
+		}
+		for name, fs := range pi.funcs {
+			if len(fs) != 1 || names[name] || ast.IsExported(name) || !called[name] || fs[0].Body == nil {
+				continue
+			}
+			if containsPenalty(fs[0], pi, 0) {
+				pi.helpers[name] = fs[0]
+			}
+		}
+		// pass 2: walk every function that is not a helper
+		for _, pf := range byDir[d] {
+			rel := pf.rel
+			for _, decl := range pf.f.Decls {
+				switch v := decl.(type) {
+				case *ast.FuncDecl:
+					fn := v.Name.Name
+					if v.Recv != nil && len(v.Recv.List) == 1 {
+						fn = strings.TrimPrefix(src(v.Recv.List[0].Type), "*") + "." + fn
+					}
+					if names[v.Name.Name] {
+						decls = append(decls, rel+":"+fn)
+					}
+					if v.Body != nil && pi.helpers[v.Name.Name] != v {
+						walker{file: rel, fn: fn, out: &sites, pkg: pi}.node(v.Body)
+					}
+				case *ast.GenDecl:
+					// package-level function values
+					for _, sp := range v.Specs {
+						if vs, ok := sp.(*ast.ValueSpec); ok {
+							for i, e := range vs.Values {
+								name := "_"
+								if i < len(vs.Names) {
+									name = vs.Names[i].Name
+								}
+								walker{file: rel, fn: "var " + name, out: &sites, pkg: pi}.expr(e)
+							}
+						}
+						// interface methods with these names are declarations of use, list them too
+						if ts, ok := sp.(*ast.TypeSpec); ok {
+							if it, ok := ts.Type.(*ast.InterfaceType); ok {
+								for _, m := range it.Methods.List {
+									for _, id := range m.Names {
+										if names[id.Name] {
+											decls = append(decls, rel+":interface "+ts.Name.Name+"."+id.Name)
+										}
 									}
 								}
 							}
